@@ -7,55 +7,73 @@ open Py
 
 /-! ### basic facts about single steps -/
 
-theorem afterFill_isB (q : Str) (todo : List (Str × ClassId)) : (afterFill q todo).isB = false := by
+theorem afterLocal_isB (q : Str) (todo : List ClassId) (acc : Index) :
+    (afterLocal q todo acc).isB = false := by
   cases todo <;> rfl
 
-theorem afterFill_isX (q : Str) (todo : List (Str × ClassId)) : (afterFill q todo).isX = true := by
+theorem afterLocal_isR (q : Str) (todo : List ClassId) (acc : Index) :
+    (afterLocal q todo acc).isR = false := by
   cases todo <;> rfl
 
-/-- a thread outside `build` stays outside and leaves the cache alone -/
-theorem stepT_notB (U : Universe) (w : World) (s : State) (st : TState) (h : st.isB = false) :
-    (stepT U w s st).2.isB = false ∧ (stepT U w s st).1.cache = s.cache := by
+/-- a thread inside `find_types` stays outside `build`/`reset` and leaves the cache alone -/
+theorem stepT_notBR (U : Universe) (w : World) (s : CState) (st : TState) (hb : st.isB = false)
+    (hr : st.isR = false) :
+    (stepT U w s st).2.isB = false ∧ (stepT U w s st).2.isR = false ∧
+      (stepT U w s st).1.cache = s.cache := by
   cases st with
-  | bCheck _ _ => simp [TState.isB] at h
-  | bWrite _ _ => simp [TState.isB] at h
-  | bRead _ => simp [TState.isB] at h
-  | xCheck q => simp only [stepT]; split <;> exact ⟨rfl, rfl⟩
-  | xClear q => exact ⟨afterFill_isB _ _, rfl⟩
-  | xFill q todo =>
+  | bCheck _ _ => simp [TState.isB] at hb
+  | bWrite _ _ => simp [TState.isB] at hb
+  | bRead _ => simp [TState.isB] at hb
+  | rCache => simp [TState.isR] at hr
+  | rXsi _ => simp [TState.isR] at hr
+  | rStamp => simp [TState.isR] at hr
+  | xCheck q =>
+    simp only [stepT]
+    split
+    · exact ⟨rfl, rfl, rfl⟩
+    · exact ⟨afterLocal_isB _ _ _, afterLocal_isR _ _ _, rfl⟩
+  | xLocal q todo acc =>
     cases todo with
-    | nil => exact ⟨rfl, rfl⟩
-    | cons e rest => obtain ⟨k, c0⟩ := e; exact ⟨afterFill_isB _ _, rfl⟩
-  | xStamp q => exact ⟨rfl, rfl⟩
-  | xContains q => simp only [stepT]; split <;> exact ⟨rfl, rfl⟩
-  | xGet q => simp only [stepT]; split <;> exact ⟨rfl, rfl⟩
-  | done o => exact ⟨rfl, rfl⟩
+    | nil => exact ⟨rfl, rfl, rfl⟩
+    | cons c rest => exact ⟨afterLocal_isB _ _ _, afterLocal_isR _ _ _, rfl⟩
+  | xPublish q acc => exact ⟨rfl, rfl, rfl⟩
+  | xStamp q => exact ⟨rfl, rfl, rfl⟩
+  | xContains q d => simp only [stepT]; split <;> exact ⟨rfl, rfl, rfl⟩
+  | xGet q d => simp only [stepT]; split <;> exact ⟨rfl, rfl, rfl⟩
+  | done o => exact ⟨rfl, rfl, rfl⟩
 
-/-- a thread outside the index code stays outside and leaves index and stamp alone -/
-theorem stepT_notX (U : Universe) (w : World) (s : State) (st : TState) (h : st.isX = false) :
-    (stepT U w s st).2.isX = false ∧ (stepT U w s st).1.xsi = s.xsi ∧
+/-- a thread outside the index code and outside `reset` stays there and leaves
+the dict objects, the reference and the stamp alone -/
+theorem stepT_notXR (U : Universe) (w : World) (s : CState) (st : TState) (hx : st.isX = false)
+    (hr : st.isR = false) :
+    (stepT U w s st).2.isX = false ∧ (stepT U w s st).2.isR = false ∧
+      (stepT U w s st).1.heap = s.heap ∧ (stepT U w s st).1.ref = s.ref ∧
       (stepT U w s st).1.sysModules = s.sysModules := by
   cases st with
   | bCheck c p =>
     simp only [stepT]
     split
-    · exact ⟨rfl, rfl, rfl⟩
-    · split <;> exact ⟨rfl, rfl, rfl⟩
-  | bWrite c m => exact ⟨rfl, rfl, rfl⟩
-  | bRead c => simp only [stepT]; split <;> exact ⟨rfl, rfl, rfl⟩
-  | xCheck _ => simp [TState.isX] at h
-  | xClear _ => simp [TState.isX] at h
-  | xFill _ _ => simp [TState.isX] at h
-  | xStamp _ => simp [TState.isX] at h
-  | xContains _ => simp [TState.isX] at h
-  | xGet _ => simp [TState.isX] at h
-  | done o => exact ⟨rfl, rfl, rfl⟩
+    · exact ⟨rfl, rfl, rfl, rfl, rfl⟩
+    · split <;> exact ⟨rfl, rfl, rfl, rfl, rfl⟩
+  | bWrite c m => exact ⟨rfl, rfl, rfl, rfl, rfl⟩
+  | bRead c => simp only [stepT]; split <;> exact ⟨rfl, rfl, rfl, rfl, rfl⟩
+  | xCheck _ => simp [TState.isX] at hx
+  | xLocal _ _ _ => simp [TState.isX] at hx
+  | xPublish _ _ => simp [TState.isX] at hx
+  | xStamp _ => simp [TState.isX] at hx
+  | xContains _ _ => simp [TState.isX] at hx
+  | xGet _ _ => simp [TState.isX] at hx
+  | rCache => simp [TState.isR] at hr
+  | rXsi _ => simp [TState.isR] at hr
+  | rStamp => simp [TState.isR] at hr
+  | done o => exact ⟨rfl, rfl, rfl, rfl, rfl⟩
 
-/-- the cache never loses a key -/
-theorem stepT_cache_mono (U : Universe) (w : World) (s : State) (st : TState) (c : ClassId)
-    (h : (s.cache.lookup c).isSome = true) : ((stepT U w s st).1.cache.lookup c).isSome = true := by
+/-- outside `reset` the cache never loses a key -/
+theorem stepT_cache_mono (U : Universe) (w : World) (s : CState) (st : TState) (hr : st.isR = false)
+    (c : ClassId) (h : (s.cache.lookup c).isSome = true) :
+    ((stepT U w s st).1.cache.lookup c).isSome = true := by
   by_cases hb : st.isB = false
-  · rw [(stepT_notB U w s st hb).2]; exact h
+  · rw [(stepT_notBR U w s st hb hr).2.2]; exact h
   · cases st with
     | bCheck c' p =>
       simp only [stepT]
@@ -87,17 +105,22 @@ theorem cache_entry_eq_pure {U : Universe} {uses : List Use} {cache : List (Clas
 /-! ### the metadata cache under arbitrary interleavings -/
 
 /-- what is known about a thread inside / after `build(c, p)` -/
-def BuildOK (U : Universe) (s : State) (c : ClassId) (p : Option Str) : TState → Prop
+def BuildOK (U : Universe) (s : CState) (c : ClassId) (p : Option Str) : TState → Prop
   | .bCheck c' p' => c' = c ∧ p' = p
   | .bWrite c' m => c' = c ∧ pureBuild U c p = .ok m
   | .bRead c' => c' = c ∧ (s.cache.lookup c).isSome = true
   | .done o => o = outMeta (pureBuild U c p)
   | _ => False
 
-def ThreadOK (U : Universe) (uses : List Use) (s : State) (th : Thread) : Prop :=
+theorem BuildOK.notR {U : Universe} {s : CState} {c : ClassId} {p : Option Str} {st : TState}
+    (h : BuildOK U s c p st) : st.isR = false := by
+  cases st <;> first | rfl | cases h
+
+def ThreadOK (U : Universe) (uses : List Use) (s : CState) (th : Thread) : Prop :=
   match th.prog with
   | .build c p => (c, p) ∈ uses ∧ BuildOK U s c p th.st
-  | .findTypes _ => th.st.isB = false
+  | .findTypes _ => th.st.isB = false ∧ th.st.isR = false
+  | .reset => False
 
 structure SysInv (U : Universe) (uses : List Use) (sys : Sys) : Prop where
   cache : ∀ c m, sys.shared.cache.lookup c = some m → ∃ p, (c, p) ∈ uses ∧ pureBuild U c p = .ok m
@@ -116,11 +139,19 @@ theorem mem_progUses : ∀ (progs : List Prog) (c : ClassId) (p : Option Str),
     cases List.mem_cons.mp h with
     | inl h => cases h
     | inr h => exact mem_progUses rest c p h
+  | .reset :: rest, c, p, h => by
+    simp only [progUses]
+    cases List.mem_cons.mp h with
+    | inl h => cases h
+    | inr h => exact mem_progUses rest c p h
 
 theorem start_isB (q : Str) : (Prog.findTypes q).start.isB = false := by
   simp only [Prog.start]; split <;> rfl
 
-theorem SysInv.start (U : Universe) (progs : List Prog) (s0 : State)
+theorem start_isR (q : Str) : (Prog.findTypes q).start.isR = false := by
+  simp only [Prog.start]; split <;> rfl
+
+theorem SysInv.start (U : Universe) (progs : List Prog) (hnr : noReset progs) (s0 : State)
     (h0 : ∀ c m, s0.cache.lookup c = some m → ∃ p, (c, p) ∈ progUses progs ∧ pureBuild U c p = .ok m) :
     SysInv U (progUses progs) (Sys.start s0 progs) := by
   refine ⟨h0, ?_⟩
@@ -129,9 +160,10 @@ theorem SysInv.start (U : Universe) (progs : List Prog) (s0 : State)
   obtain ⟨pr, hpr, rfl⟩ := hth
   cases pr with
   | build c p => exact ⟨mem_progUses progs c p hpr, rfl, rfl⟩
-  | findTypes q => exact start_isB q
+  | findTypes q => exact ⟨start_isB q, start_isR q⟩
+  | reset => exact absurd rfl (hnr _ hpr)
 
-theorem BuildOK.mono {U : Universe} {s s' : State} {c : ClassId} {p : Option Str} {st : TState}
+theorem BuildOK.mono {U : Universe} {s s' : CState} {c : ClassId} {p : Option Str} {st : TState}
     (h : BuildOK U s c p st)
     (hm : (s.cache.lookup c).isSome = true → (s'.cache.lookup c).isSome = true) :
     BuildOK U s' c p st := by
@@ -140,7 +172,7 @@ theorem BuildOK.mono {U : Universe} {s s' : State} {c : ClassId} {p : Option Str
 
 /-- the stepping thread: cache invariant and its own state -/
 theorem stepT_build_inv {U : Universe} {uses : List Use} (hc : consistent U uses) (w : World)
-    {s : State} (hI : ∀ c m, s.cache.lookup c = some m → ∃ p, (c, p) ∈ uses ∧ pureBuild U c p = .ok m)
+    {s : CState} (hI : ∀ c m, s.cache.lookup c = some m → ∃ p, (c, p) ∈ uses ∧ pureBuild U c p = .ok m)
     {c : ClassId} {p : Option Str} (hu : (c, p) ∈ uses) {st : TState} (hst : BuildOK U s c p st) :
     (∀ c2 m2, (stepT U w s st).1.cache.lookup c2 = some m2 →
         ∃ p2, (c2, p2) ∈ uses ∧ pureBuild U c2 p2 = .ok m2) ∧
@@ -182,11 +214,14 @@ theorem stepT_build_inv {U : Universe} {uses : List Use} (hc : consistent U uses
       rfl
   | done o => exact ⟨hI, hst⟩
   | xCheck _ => cases hst
-  | xClear _ => cases hst
-  | xFill _ _ => cases hst
+  | xLocal _ _ _ => cases hst
+  | xPublish _ _ => cases hst
   | xStamp _ => cases hst
-  | xContains _ => cases hst
-  | xGet _ => cases hst
+  | xContains _ _ => cases hst
+  | xGet _ _ => cases hst
+  | rCache => cases hst
+  | rXsi _ => cases hst
+  | rStamp => cases hst
 
 /-- **one atomic step of any thread preserves the invariant** -/
 theorem sched_inv {U : Universe} {uses : List Use} (hc : consistent U uses) (w : World) {sys : Sys}
@@ -197,24 +232,26 @@ theorem sched_inv {U : Universe} {uses : List Use} (hc : consistent U uses) (w :
   | some th =>
     have hmem : th ∈ sys.threads := List.mem_of_getElem? hth
     have hok := hI.threads th hmem
-    have hmono := stepT_cache_mono U w sys.shared th.st
-    have key : (∀ c m, (stepT U w sys.shared th.st).1.cache.lookup c = some m →
+    have key : th.st.isR = false ∧
+        (∀ c m, (stepT U w sys.shared th.st).1.cache.lookup c = some m →
           ∃ p, (c, p) ∈ uses ∧ pureBuild U c p = .ok m) ∧
         ThreadOK U uses (stepT U w sys.shared th.st).1 ⟨th.prog, (stepT U w sys.shared th.st).2⟩ := by
       unfold ThreadOK at hok ⊢
       cases hp : th.prog with
       | findTypes q =>
         simp only [hp] at hok ⊢
-        obtain ⟨h1, h2⟩ := stepT_notB U w sys.shared th.st hok
-        exact ⟨by rw [h2]; exact hI.cache, h1⟩
+        obtain ⟨h1, h2, h3⟩ := stepT_notBR U w sys.shared th.st hok.1 hok.2
+        exact ⟨hok.2, by rw [h3]; exact hI.cache, h1, h2⟩
       | build c p =>
         simp only [hp] at hok ⊢
         obtain ⟨h1, h2⟩ := stepT_build_inv hc w hI.cache hok.1 hok.2
-        exact ⟨h1, hok.1, h2⟩
-    refine ⟨key.1, ?_⟩
+        exact ⟨hok.2.notR, h1, hok.1, h2⟩
+      | reset => simp only [hp] at hok
+    have hmono := stepT_cache_mono U w sys.shared th.st key.1
+    refine ⟨key.2.1, ?_⟩
     intro th' hth'
     cases List.mem_or_eq_of_mem_set hth' with
-    | inr h => rw [h]; exact key.2
+    | inr h => rw [h]; exact key.2.2
     | inl h =>
       have hok' := hI.threads th' h
       unfold ThreadOK at hok' ⊢
@@ -223,109 +260,218 @@ theorem sched_inv {U : Universe} {uses : List Use} (hc : consistent U uses) (w :
       | build c p =>
         simp only [hp] at hok' ⊢
         exact ⟨hok'.1, hok'.2.mono (hmono c)⟩
+      | reset => simp only [hp] at hok'
 
 theorem runSched_inv {U : Universe} {uses : List Use} (hc : consistent U uses) (w : World) :
     ∀ (schedule : List Nat) (sys : Sys), SysInv U uses sys → SysInv U uses (runSched U w sys schedule)
   | [], _, h => h
-  | i :: rest, sys, h => runSched_inv hc w rest _ (sched_inv hc w h i)
+  | i :: rest, _, h => runSched_inv hc w rest _ (sched_inv hc w h i)
 
-/-! ### the type index on a warm context -/
+/-! ### the type index: every published dict object is complete -/
 
-def FindOK (U : Universe) (w : World) (q : Str) : TState → Prop
+/-- the local build computes the specification of the index -/
+theorem localFold_eq (U : Universe) : ∀ (l : List ClassId) (acc : Index),
+    (l.filter (isBinding U)).foldl (localAdd U) acc =
+      (l.filterMap fun c => if isBinding U c then (indexKey U c).map fun k => (k, c) else none).foldl
+        (fun d (e : Str × ClassId) => dictAppend d e.1 e.2) acc
+  | [], _ => rfl
+  | c :: rest, acc => by
+    by_cases hb : isBinding U c = true
+    · cases hk : indexKey U c with
+      | none =>
+        simp only [List.filter_cons, hb, if_true, List.foldl_cons, List.filterMap_cons, hk, Option.map_none]
+        rw [show localAdd U acc c = acc by simp [localAdd, hk]]
+        exact localFold_eq U rest acc
+      | some k =>
+        simp only [List.filter_cons, hb, if_true, List.foldl_cons, List.filterMap_cons, hk, Option.map_some]
+        rw [show localAdd U acc c = dictAppend acc k c by simp [localAdd, hk]]
+        exact localFold_eq U rest _
+    · have hb' : isBinding U c = false := by simpa using hb
+      simp only [List.filter_cons, hb', List.filterMap_cons]
+      simpa using localFold_eq U rest acc
+
+theorem localIndex_eq (U : Universe) (n : Nat) :
+    (bindingClasses U n).foldl (localAdd U) [] = pureIndex U n := by
+  unfold bindingClasses pureIndex indexEntries
+  rw [localFold_eq]
+
+/-- dict object `d` holds the complete index -/
+def Full (U : Universe) (w : World) (s : CState) (d : Nat) : Prop :=
+  s.heap[d]? = some (pureIndex U w.loaded)
+
+theorem Full.dict {U : Universe} {w : World} {s : CState} {d : Nat} (h : Full U w s d) :
+    s.dict d = pureIndex U w.loaded := by
+  unfold CState.dict; rw [h]; rfl
+
+def FindOK (U : Universe) (w : World) (s : CState) (q : Str) : TState → Prop
   | .xCheck q' => q' = q ∧ isDataType q = false
-  | .xContains q' => q' = q ∧ isDataType q = false
-  | .xGet q' => q' = q ∧ isDataType q = false ∧ ((pureIndex U w.loaded).lookup q).isSome = true
+  | .xLocal q' todo acc => q' = q ∧ isDataType q = false ∧
+      todo.foldl (localAdd U) acc = pureIndex U w.loaded
+  | .xPublish q' acc => q' = q ∧ isDataType q = false ∧ acc = pureIndex U w.loaded
+  | .xStamp q' => q' = q ∧ isDataType q = false ∧ Full U w s s.ref
+  | .xContains q' d => q' = q ∧ isDataType q = false ∧ Full U w s d ∧ Full U w s s.ref
+  | .xGet q' d => q' = q ∧ isDataType q = false ∧ Full U w s d ∧
+      ((pureIndex U w.loaded).lookup q).isSome = true
   | .done o => o = .gotTypes (pureTypes U w q)
   | _ => False
 
-def ThreadWarm (U : Universe) (w : World) (th : Thread) : Prop :=
+def ThreadLin (U : Universe) (w : World) (s : CState) (th : Thread) : Prop :=
   match th.prog with
-  | .build _ _ => th.st.isX = false
-  | .findTypes q => FindOK U w q th.st
+  | .build _ _ => th.st.isX = false ∧ th.st.isR = false
+  | .findTypes q => FindOK U w s q th.st
+  | .reset => False
 
-structure WarmInv (U : Universe) (w : World) (sys : Sys) : Prop where
-  stamp : sys.shared.sysModules = w.mods + 1
-  xsi : sys.shared.xsi = pureIndex U w.loaded
-  threads : ∀ th ∈ sys.threads, ThreadWarm U w th
+structure LinInv (U : Universe) (w : World) (sys : Sys) : Prop where
+  stamp : sys.shared.sysModules = w.mods + 1 → Full U w sys.shared sys.shared.ref
+  threads : ∀ th ∈ sys.threads, ThreadLin U w sys.shared th
 
-theorem WarmInv.start (U : Universe) (w : World) (progs : List Prog) (s0 : State)
-    (h1 : s0.sysModules = w.mods + 1) (h2 : s0.xsi = pureIndex U w.loaded) :
-    WarmInv U w (Sys.start s0 progs) := by
-  refine ⟨h1, h2, ?_⟩
-  intro th hth
-  simp only [Sys.start, List.mem_map] at hth
-  obtain ⟨pr, _, rfl⟩ := hth
-  cases pr with
-  | build c p => rfl
-  | findTypes q =>
-    simp only [ThreadWarm, Prog.start]
-    by_cases hd : isDataType q = true
-    · simp only [hd, if_true, FindOK, pureTypes]
-    · have hd' : isDataType q = false := by simpa using hd
-      simp [hd', FindOK]
+theorem FindOK.afterLocal {U : Universe} {w : World} {s : CState} {q : Str} (hd : isDataType q = false)
+    {todo : List ClassId} {acc : Index} (h : todo.foldl (localAdd U) acc = pureIndex U w.loaded) :
+    FindOK U w s q (afterLocal q todo acc) := by
+  cases todo with
+  | nil => exact ⟨rfl, hd, h⟩
+  | cons c rest => exact ⟨rfl, hd, h⟩
 
-theorem sched_warm {U : Universe} (w : World) {sys : Sys} (hI : WarmInv U w sys) (i : Nat) :
-    WarmInv U w (sched U w sys i) := by
+theorem FindOK.mono {U : Universe} {w : World} {s s' : CState} {q : Str} {st : TState}
+    (h : FindOK U w s q st) (h1 : ∀ d, Full U w s d → Full U w s' d)
+    (h2 : Full U w s s.ref → Full U w s' s'.ref) : FindOK U w s' q st := by
+  cases st <;> simp only [FindOK] at h ⊢ <;> try exact h
+  · exact ⟨h.1, h.2.1, h2 h.2.2⟩
+  · exact ⟨h.1, h.2.1, h1 _ h.2.2.1, h2 h.2.2.2⟩
+  · exact ⟨h.1, h.2.1, h1 _ h.2.2.1, h.2.2.2⟩
+
+theorem LinInv.start (U : Universe) (w : World) (progs : List Prog) (hnr : noReset progs) (s0 : State)
+    (h0 : s0.sysModules = w.mods + 1 → s0.xsi = pureIndex U w.loaded) :
+    LinInv U w (Sys.start s0 progs) := by
+  refine ⟨?_, ?_⟩
+  · intro hs
+    simp only [Sys.start, CState.ofState] at hs ⊢
+    simp [Full, h0 hs]
+  · intro th hth
+    simp only [Sys.start, List.mem_map] at hth
+    obtain ⟨pr, hpr, rfl⟩ := hth
+    cases pr with
+    | build c p => exact ⟨rfl, rfl⟩
+    | reset => exact absurd rfl (hnr _ hpr)
+    | findTypes q =>
+      simp only [ThreadLin, Prog.start]
+      by_cases hd : isDataType q = true
+      · simp only [hd, if_true, FindOK, pureTypes]
+      · have hd' : isDataType q = false := by simpa using hd
+        simp [hd', FindOK]
+
+/-- the stepping thread of a lookup: complete dicts stay complete, the published
+one is complete once it was, the stamp implies completeness, and the thread's
+next state is again described by `FindOK` -/
+theorem stepT_find_inv {U : Universe} {w : World} {s : CState} {q : Str} {st : TState}
+    (hstamp : s.sysModules = w.mods + 1 → Full U w s s.ref) (hst : FindOK U w s q st) :
+    (∀ d, Full U w s d → Full U w (stepT U w s st).1 d) ∧
+      (Full U w s s.ref → Full U w (stepT U w s st).1 (stepT U w s st).1.ref) ∧
+      ((stepT U w s st).1.sysModules = w.mods + 1 →
+        Full U w (stepT U w s st).1 (stepT U w s st).1.ref) ∧
+      FindOK U w (stepT U w s st).1 q (stepT U w s st).2 := by
+  cases st with
+  | xCheck q' =>
+    obtain ⟨rfl, hd⟩ := hst
+    simp only [stepT]
+    by_cases hcur : w.mods + 1 = s.sysModules
+    · rw [if_pos hcur]
+      have hf := hstamp hcur.symm
+      exact ⟨fun _ h => h, fun h => h, hstamp, rfl, hd, hf, hf⟩
+    · rw [if_neg hcur]
+      exact ⟨fun _ h => h, fun h => h, hstamp, FindOK.afterLocal hd (localIndex_eq U w.loaded)⟩
+  | xLocal q' todo acc =>
+    obtain ⟨rfl, hd, hf⟩ := hst
+    cases todo with
+    | nil => exact ⟨fun _ h => h, fun h => h, hstamp, rfl, hd, hf⟩
+    | cons c rest => exact ⟨fun _ h => h, fun h => h, hstamp, FindOK.afterLocal hd hf⟩
+  | xPublish q' acc =>
+    obtain ⟨rfl, hd, rfl⟩ := hst
+    simp only [stepT]
+    have hnew : Full U w { s with heap := s.heap ++ [pureIndex U w.loaded], ref := s.heap.length }
+        s.heap.length := by
+      simp [Full]
+    refine ⟨?_, fun _ => hnew, fun _ => hnew, rfl, hd, hnew⟩
+    intro d hfull
+    unfold Full at hfull ⊢
+    have hlt : d < s.heap.length := by
+      rcases Nat.lt_or_ge d s.heap.length with h | h
+      · exact h
+      · rw [List.getElem?_eq_none h] at hfull; cases hfull
+    simp only
+    rw [List.getElem?_append_left hlt]
+    exact hfull
+  | xStamp q' =>
+    obtain ⟨rfl, hd, hf⟩ := hst
+    exact ⟨fun _ h => h, fun h => h, fun _ => hf, rfl, hd, hf, hf⟩
+  | xContains q' d =>
+    obtain ⟨rfl, hd, hfd, hfr⟩ := hst
+    simp only [stepT, hfd.dict]
+    cases hl : (pureIndex U w.loaded).lookup q' with
+    | some l => exact ⟨fun _ h => h, fun h => h, hstamp, rfl, hd, hfr, by simp [hl]⟩
+    | none =>
+      refine ⟨fun _ h => h, fun h => h, hstamp, ?_⟩
+      simp [FindOK, pureTypes, hd, hl]
+  | xGet q' d =>
+    obtain ⟨rfl, hd, hfd, hsome⟩ := hst
+    simp only [stepT, hfd.dict]
+    cases hl : (pureIndex U w.loaded).lookup q' with
+    | none => simp [hl] at hsome
+    | some l =>
+      refine ⟨fun _ h => h, fun h => h, hstamp, ?_⟩
+      simp [FindOK, pureTypes, hd, hl]
+  | done o => exact ⟨fun _ h => h, fun h => h, hstamp, hst⟩
+  | bCheck _ _ => cases hst
+  | bWrite _ _ => cases hst
+  | bRead _ => cases hst
+  | rCache => cases hst
+  | rXsi _ => cases hst
+  | rStamp => cases hst
+
+theorem sched_lin {U : Universe} (w : World) {sys : Sys} (hI : LinInv U w sys) (i : Nat) :
+    LinInv U w (sched U w sys i) := by
   unfold sched
   cases hth : sys.threads[i]? with
   | none => exact hI
   | some th =>
     have hmem : th ∈ sys.threads := List.mem_of_getElem? hth
     have hok := hI.threads th hmem
-    have key : (stepT U w sys.shared th.st).1.sysModules = w.mods + 1 ∧
-        (stepT U w sys.shared th.st).1.xsi = pureIndex U w.loaded ∧
-        ThreadWarm U w ⟨th.prog, (stepT U w sys.shared th.st).2⟩ := by
-      unfold ThreadWarm at hok ⊢
+    have key : (∀ d, Full U w sys.shared d → Full U w (stepT U w sys.shared th.st).1 d) ∧
+        (Full U w sys.shared sys.shared.ref →
+          Full U w (stepT U w sys.shared th.st).1 (stepT U w sys.shared th.st).1.ref) ∧
+        ((stepT U w sys.shared th.st).1.sysModules = w.mods + 1 →
+          Full U w (stepT U w sys.shared th.st).1 (stepT U w sys.shared th.st).1.ref) ∧
+        ThreadLin U w (stepT U w sys.shared th.st).1 ⟨th.prog, (stepT U w sys.shared th.st).2⟩ := by
+      unfold ThreadLin at hok ⊢
       cases hp : th.prog with
       | build c p =>
         simp only [hp] at hok ⊢
-        obtain ⟨h1, h2, h3⟩ := stepT_notX U w sys.shared th.st hok
-        exact ⟨by rw [h3]; exact hI.stamp, by rw [h2]; exact hI.xsi, h1⟩
+        obtain ⟨h1, h2, h3, h4, h5⟩ := stepT_notXR U w sys.shared th.st hok.1 hok.2
+        refine ⟨?_, ?_, ?_, h1, h2⟩
+        · intro d hf; unfold Full at hf ⊢; rw [h3]; exact hf
+        · intro hf; unfold Full at hf ⊢; rw [h3, h4]; exact hf
+        · intro hs; rw [h5] at hs; have := hI.stamp hs; unfold Full at this ⊢; rw [h3, h4]; exact this
       | findTypes q =>
         simp only [hp] at hok ⊢
-        cases hs : th.st with
-        | xCheck q' =>
-          rw [hs] at hok
-          obtain ⟨rfl, hd⟩ := hok
-          simp only [stepT]
-          rw [if_pos hI.stamp.symm]
-          exact ⟨hI.stamp, hI.xsi, rfl, hd⟩
-        | xContains q' =>
-          rw [hs] at hok
-          obtain ⟨rfl, hd⟩ := hok
-          simp only [stepT, hI.xsi]
-          cases hl : (pureIndex U w.loaded).lookup q' with
-          | some l => exact ⟨hI.stamp, hI.xsi, rfl, hd, by simp [hl]⟩
-          | none =>
-            refine ⟨hI.stamp, hI.xsi, ?_⟩
-            simp [FindOK, pureTypes, hd, hl]
-        | xGet q' =>
-          rw [hs] at hok
-          obtain ⟨rfl, hd, hsome⟩ := hok
-          simp only [stepT, hI.xsi]
-          cases hl : (pureIndex U w.loaded).lookup q' with
-          | none => simp [hl] at hsome
-          | some l =>
-            refine ⟨hI.stamp, hI.xsi, ?_⟩
-            simp [FindOK, pureTypes, hd, hl]
-        | done o =>
-          rw [hs] at hok
-          exact ⟨hI.stamp, hI.xsi, hok⟩
-        | bCheck _ _ => rw [hs] at hok; cases hok
-        | bWrite _ _ => rw [hs] at hok; cases hok
-        | bRead _ => rw [hs] at hok; cases hok
-        | xClear _ => rw [hs] at hok; cases hok
-        | xFill _ _ => rw [hs] at hok; cases hok
-        | xStamp _ => rw [hs] at hok; cases hok
-    refine ⟨key.1, key.2.1, ?_⟩
+        exact stepT_find_inv hI.stamp hok
+      | reset => simp only [hp] at hok
+    refine ⟨key.2.2.1, ?_⟩
     intro th' hth'
     cases List.mem_or_eq_of_mem_set hth' with
-    | inr h => rw [h]; exact key.2.2
-    | inl h => exact hI.threads th' h
+    | inr h => rw [h]; exact key.2.2.2
+    | inl h =>
+      have hok' := hI.threads th' h
+      unfold ThreadLin at hok' ⊢
+      cases hp : th'.prog with
+      | build c p => simpa [hp] using hok'
+      | findTypes q =>
+        simp only [hp] at hok' ⊢
+        exact hok'.mono key.1 key.2.1
+      | reset => simp only [hp] at hok'
 
-theorem runSched_warm {U : Universe} (w : World) :
-    ∀ (schedule : List Nat) (sys : Sys), WarmInv U w sys → WarmInv U w (runSched U w sys schedule)
+theorem runSched_lin {U : Universe} (w : World) :
+    ∀ (schedule : List Nat) (sys : Sys), LinInv U w sys → LinInv U w (runSched U w sys schedule)
   | [], _, h => h
-  | i :: rest, sys, h => runSched_warm w rest _ (sched_warm w h i)
+  | i :: rest, _, h => runSched_lin w rest _ (sched_lin w h i)
 
 end Xs.Ctx
